@@ -258,6 +258,9 @@ func (g *Gen) Step() bool {
 		choice{g.wt("tokreset"), g.opTokReset},
 		choice{g.wt("httpget"), func() { g.opHTTP("GET") }},
 		choice{g.wt("httppost"), func() { g.opHTTP("POST") }},
+		choice{g.wt("sleep") * boolInt(g.w.Cfg.UnsubDelayMs > 0), func() {
+			g.w.Exec(Op{K: "sleep", N: g.w.Cfg.UnsubDelayMs/2 + rapid.IntRange(0, g.w.Cfg.UnsubDelayMs).Draw(g.t, "sleepms")})
+		}},
 	)
 	return g.pick("op", cs)
 }
@@ -637,7 +640,7 @@ func ridToPath(rid string) (path, query string) {
 
 func (g *Gen) opHTTP(method string) {
 	rid := g.sample("hrid", g.rids)
-	if strings.Contains(rid, "{") {
+	if strings.Contains(rid, "{") || len(rid) > 500 {
 		return
 	}
 	p, q := ridToPath(rid)
